@@ -68,7 +68,7 @@ class StereoMolGraph(MolGraph):
             return color_refine_hash_smg(self)
 
     def __eq__(self, other: object) -> bool:
-        if not isinstance(other, self.__class__):
+        if type(other) is not type(self):
             return NotImplemented
         if len(self) == 0 or len(other) == 0:
             return len(self) == len(other)
